@@ -53,9 +53,16 @@ def run_tlc(name, moddir, module, cfg, env=None, workers=None, xmx="6g", timeout
     return r
 
 
+def tlc_error_text(r):
+    """the part of TLC's output that says what went wrong (first 'Error:' block) plus the last lines"""
+    lines = r["out"].splitlines()
+    k = next((i for i, l in enumerate(lines) if l.startswith("Error:") or "Exception" in l), None)
+    head = lines[k:k + 14] if k is not None else []
+    return "\n".join(head + ["..."] + lines[-12:])
+
+
 def tlc_failed(r, what):
-    tail = "\n".join(r["out"].splitlines()[-40:])
-    raise Machinery("TLC run '%s' did not complete (rc=%s)\n%s" % (what, r["rc"], tail))
+    raise Machinery("TLC run '%s' did not complete (rc=%s)\n%s" % (what, r["rc"], tlc_error_text(r)))
 
 
 # ------------------------------------------------------------------ TLA+ value parser (for PrintT lines and dumps)
